@@ -277,10 +277,13 @@ def run(ck):
     rq = tlc.run("mc/MC_Portfolio", cfg="MC_Portfolio_sharedq.cfg", timeout=3000)
     if "Agreement" not in rq.invariant_violated:
         ck.machinery_error("the model with one signalling queue for the object's life did not produce the stale-answer counterexample")
+    rc = tlc.run("mc/MC_Portfolio", cfg="MC_Portfolio_cached.cfg", timeout=3000)
+    if "ModelIsCurrent" not in rc.invariant_violated:
+        ck.machinery_error("the model that keeps a member's first model did not produce the stale-model counterexample")
     rp = tlc.run("mc/MC_Portfolio", cfg="MC_Portfolio_pinned.cfg", timeout=3000)
     if "SolveReturns" not in rp.out or "violated" not in rp.out:
         ck.machinery_error("the model of the pinned portfolio did not produce the blocking counterexample")
-    ck.part("design_check_MC_Portfolio", states=total, members=3, consecutive_solves=2, pinned_counterexample=True, shared_queue_counterexample=True)
+    ck.part("design_check_MC_Portfolio", states=total, members=3, consecutive_solves=2, pinned_counterexample=True, shared_queue_counterexample=True, cached_model_counterexample=True)
     # ---- (B)
     n2 = gen_corpus("N2", module="gen/Gen_Portfolio", deps=DEPS)
     n3 = gen_corpus("N3", module="gen/Gen_Portfolio", deps=DEPS)
